@@ -4,6 +4,8 @@ pub mod serde_json {
     use vstd::prelude::*;
     #[verifier::external_body]
     pub struct Error { e: u8 }
+    #[verifier::external]
+    impl ::std::fmt::Debug for Error { fn fmt(&self, f: &mut ::std::fmt::Formatter<'_>) -> ::std::fmt::Result { Ok(()) } }
     /// an arbitrary JSON value; nothing about its structure is needed
     pub enum Value { Null, Other(ValueOpaque) }
     #[verifier::external_body]
